@@ -11,7 +11,10 @@ from . import oracle
 def emit_field_decl(d, name="S"):
     order = d[7] if len(d) > 7 else 'ras'
     base, form, ranges, ty, K, stride, sep = d[:7]
-    if len(ranges) == 1:
+    if len(ranges) == 1 and form == 'list1':
+        lo, hi = ranges[0]
+        a = f"bits([{lo}..={hi}]"
+    elif len(ranges) == 1:
         lo, hi = ranges[0]
         a = f"bit({lo}" if form == 'bit' else f"bits({lo}..={hi}"
     else:
@@ -63,7 +66,8 @@ def c09_small_product(n):
     for lo in range(0, n + 2):
         for hi in range(0, n + 2):
             w = hi - lo + 1
-            forms = ['bits'] + (['bit'] if lo == hi else [])
+            # `bits([lo..=hi])`: a range list with one member is still one contiguous range
+            forms = ['bits'] + (['bit'] if lo == hi else []) + (['list1'] if (lo + hi) % 2 == 0 else [])
             for form in forms:
                 for ty in types_around(w):
                     for K in (None, 1, 2, 3):
@@ -177,6 +181,8 @@ def emit_enum_decl(d, name="E"):
     vs = []
     for i, x in enumerate(ds):
         pre = '#[cfg(all())] ' if cfg == i else ''
+        if cfg == i and (len(ds) + i) % 2 == 0:
+            pre = '/** doc comment before the cfg */ #[cfg(all())] '
         if mal == 'missing' and i == len(ds) - 1:
             vs.append(f"{pre}V{i}")
         elif mal == 'nonlit' and i == len(ds) - 1:
